@@ -1119,39 +1119,46 @@ def run_corpus(ctx):
     ctx.cover("corpus_cases", n)
 
 
+def known_ids(ctx):
+    return {k["id"] for k in getattr(ctx, "known", []) if k.get("status") == "known"}
+
+
 def judge_case(ctx, case, report=False, verbose=False):
-    """True iff the real code violates the property on this case (known findings included)"""
+    """True iff the real code violates the property on this case in a way that is NOT covered by a `status: known`
+    finding (those are reported through ctx.violation(finding=...) / printed with their id)"""
     kind = case.get("kind")
+    probs = []      # (finding id or None, text)
     if kind == "reactive":
         a2 = case["t_on"] <= A2_MAX_TON_US
-        probs, _, lines = run_reactive_case(case)
-        if verbose:
-            print("real:", lines[-6:], "->", [t for _, t, _ in probs] or "ok")
-        if report:
-            for k_, text, k in probs:
-                report_r(ctx, a2, case["t_on"], case.get("start", 0), case["cbr"], k_, text, k)
-        return bool(probs)
-    if kind == "gate":
-        probs, recs, _ = run_gate_case(case)
-        if verbose:
-            print("real:", [r[2] for r in recs[-6:]], "->", [t for _, t in probs] or "ok")
-        if report:
-            report_gate(ctx, case, probs)
-        return bool(probs)
-    if kind == "adaptive":
-        probs, recs = run_adaptive_case(case)
+        rp, _, lines = run_reactive_case(case)
+        tail = lines[-6:]
+        probs = [(classify_r(a2, k, k_), f"reactive[{'A2' if a2 else 'A1'}] {text}") for k_, text, k in rp]
+    elif kind == "gate":
+        gp, recs, _ = run_gate_case(case)
+        tail = [r[2] for r in recs[-6:]]
+        probs = [("C19-KF1" if k_.endswith("-kf1") else None, "gate: " + text) for k_, text in gp]
+    elif kind == "adaptive":
+        ap, recs = run_adaptive_case(case)
+        tail = [r[2] for r in recs[-6:]]
+        probs = [(None, "adaptive: " + text) for _, text in ap]
     elif kind == "defaults":
         d = A.DccAdaptiveParameters()
-        probs = [("defaults", case["name"])] if F(repr(float(getattr(d, case["name"])))) != TABLE3[case["name"]] else []
-        recs = []
+        tail = []
+        if F(repr(float(getattr(d, case["name"])))) != TABLE3[case["name"]]:
+            probs = [(None, f"defaults: {case['name']}")]
     else:
         raise Infra(f"unknown replay kind {kind}")
+    known = known_ids(ctx)
     if verbose:
-        print("real:", [r[2] for r in recs[-6:]], "->", [t for _, t in probs] or "ok")
+        print("real:", tail)
+        for fid, text in probs:
+            print(("  [known finding %s] " % fid if fid in known else "  VIOLATES: ") + text[:400])
+        if not probs:
+            print("  ok")
     if report:
-        for _, text in probs:
-            ctx.violation(f"{kind}: {text}", case)
-    return bool(probs)
+        for fid, text in probs:
+            ctx.violation(text, case, finding=fid)
+    return any(fid not in known for fid, _ in probs)
 
 
 def probe_variants(ctx):
